@@ -975,7 +975,14 @@ def api_convert_from_storage(I, n, v, u):
         if isinstance(v, Other):
             I.incomplete(n, f"convert_from_storage of {v!r}")
         raise Raised('TypeError', n.lineno)
-    I.check_same(I.as_unit(v, n, True), st, n, 'from-storage',
+    uv = I.as_unit(v, n, True)
+    if uv is not None and st is PMS_MOL and uv.dims == {'U': 1} and not I.bound_unit(uv).has_storage_symbol() and \
+            I.opts.get('linear_from_storage'):
+        # the conversion is a multiplication by (storage unit / requested unit): applied to an activity that is divided
+        # by a ratio in U per storage-mole afterwards it converts the quotient - the number is then expressed in
+        # U * requested / storage, and the later division makes it the requested unit (dilute of an enzyme)
+        return Num(uv * uu / st)
+    I.check_same(uv, st, n, 'from-storage',
                  'value passed to convert_from_storage is not a stored quantity of that dimension')
     return Num(uu)
 
